@@ -4,6 +4,10 @@
 #include <atomic>
 #include <cstdint>
 
+#ifdef BLUETOE_VERIF_HOOKS
+#include <bluetoe/verif_hooks.hpp>
+#endif
+
 namespace bluetoe {
 namespace details {
 
@@ -30,8 +34,13 @@ namespace details {
         // queue is empty, if both point to the very same element
         // if read_ptr_ != write_ptr_, the ring is not empty and data_[ read_ptr_ ]
         // contains the next element to read from.
+#ifdef BLUETOE_VERIF_HOOKS
+        verif_hooks::yielding_atomic_int read_ptr_;
+        verif_hooks::yielding_atomic_int write_ptr_;
+#else
         std::atomic_int read_ptr_;
         std::atomic_int write_ptr_;
+#endif
 
         static constexpr std::size_t length = S + 1;
 
